@@ -82,6 +82,11 @@ fn adversarial(rng: &mut Rng) -> Vec<(String, &'static str, Vec<u8>)> {
     for t in ["", "a", "a =", "a = 1\na = 2", "[a]\n[a]", "a.b = 1\na = 2", "a = 1979-05-27T07:32:00Z", "a = 99999999999999999999", "a = [1, {b = [2, {c = 3}]}]", "[[a]]\n[a]", "a = \"\\uD800\"", "\"\" = 1", "a = 0x", "a = nan", "a = -inf", "a = {b = 1, b = 2}"] {
         v.push((format!("toml-{t:?}"), "toml", t.as_bytes().to_vec()));
     }
+    // well-formed UTF-8 that is not allowed in YAML, and not-quite UTF-8 (libyaml reports the code point it met)
+    for (name, bytes) in [("fffe", &b"a: \xef\xbf\xbe\n"[..]), ("ffff", b"- \xef\xbf\xbf\n"), ("surrogate", b"a: \xed\xa0\x80\n"), ("beyond", b"a: \xf4\x90\x80\x80\n"),
+                          ("overlong", b"a: \xc0\xaf\n"), ("c1-control", b"a: \xc2\x81\n"), ("ffff-in-key", b"\xef\xbf\xbf: 1\n")] {
+        v.push((format!("yaml-codepoint-{name}"), "yaml", bytes.to_vec()));
+    }
     // errors whose text quotes a long non-ASCII line or key (whatever shortens or decorates a message must
     // respect character boundaries): every alignment of the multi-byte characters against the byte count
     for pad in 0..6usize {
